@@ -281,6 +281,14 @@ def run_probe(path, outdir, timeout=600):
             for t in c["tags"]:
                 failed_tags.add(t)
             if not c["semantic"]:
+                # running out of resources while trying to prove `false` means the false obligation was NOT proved:
+                # the probes of that function count as refuted (the unit itself verified within the limit)
+                if re.search(r"rlimit|resource limit", c["message"], re.I) and c.get("fn"):
+                    base = c["fn"][:-len("__probe")] if c["fn"].endswith("__probe") else c["fn"]
+                    for p in probes:
+                        if p.startswith(f"VACUITY-PROBE {base} "):
+                            failed_tags.add(p)
+                    continue
                 broken.append(c["message"][:200])
     if broken:
         return dict(ok=False, probes=len(probes), refuted=0, vacuous=["probe file did not compile: " + "; ".join(broken[:3])], wall_s=round(r["wall"], 2))
